@@ -43,6 +43,13 @@ impl<S: Storage> InsertExecutor<S> {
         #[for_await]
         for chunk in child {
             let chunk = Evaluator::new(&expr).eval_list(&chunk?)?;
+            // enforce NOT NULL (and PRIMARY KEY, which implies it): without this check a NULL is stored as
+            // NULL by the memory engine and silently becomes 0 / '' in the non-nullable disk encoding
+            for (col, array) in columns.iter().zip(chunk.arrays()) {
+                if !col.is_nullable() && (0..array.len()).any(|i| array.get(i).is_null()) {
+                    return Err(ExecutorError::not_nullable());
+                }
+            }
             cnt += chunk.cardinality();
             txn.append(chunk).await?;
         }
